@@ -591,7 +591,9 @@ func init() {
 			out = append(out, Inst{Pkg: "knx", Fn: "HarnessC17", Args: []int64{8, 3, 1}, Note: "no accepted telegram is lost when the overflow queue was used and drained before"},
 				Inst{Pkg: "knx", Fn: "HarnessC17", Args: []int64{8, 3, 3}},
 				Inst{Pkg: "knx", Fn: "HarnessC17", Args: []int64{0, 40, 1}, Ctx: -1, Note: "no accepted telegram is lost in a backlog of 40 (non-preemptive schedules)"},
-				Inst{Pkg: "knx", Fn: "HarnessC17", Args: []int64{0, 40, 3}, Ctx: -1})
+				Inst{Pkg: "knx", Fn: "HarnessC17", Args: []int64{0, 40, 3}, Ctx: -1},
+				Inst{Pkg: "knx", Fn: "HarnessC17", Args: []int64{0, 6, 3}, Note: "no accepted telegram is lost or duplicated when a backlog is drained while further telegrams are accepted"},
+				Inst{Pkg: "knx", Fn: "HarnessC17", Args: []int64{0, 7, 3}})
 			return out
 		},
 		Thorough: func(l *loaded) []Inst {
@@ -611,6 +613,9 @@ func init() {
 			out = append(out, Inst{Pkg: "knx", Fn: "HarnessC09Parked", Ctx: 3, MaxSched: 20000, Note: "no accepted telegram is lost across a reconnect"})
 			for mode := int64(0); mode < 4; mode++ {
 				out = append(out, Inst{Pkg: "knx", Fn: "HarnessC17", Args: []int64{8, 4, mode}, Note: "no accepted telegram is lost when the overflow queue was used and drained before"})
+			}
+			for _, k := range []int64{6, 7, 8} {
+				out = append(out, Inst{Pkg: "knx", Fn: "HarnessC17", Args: []int64{0, k, 3}, Note: "no accepted telegram is lost or duplicated when a backlog is drained while further telegrams are accepted"})
 			}
 			return out
 		},
@@ -922,6 +927,9 @@ func init() {
 				out = append(out, Inst{Pkg: "knxnet", Fn: "HarnessC16TCP", Args: []int64{f, k0, c, 0}, Note: "every placement of up to c cuts"},
 					Inst{Pkg: "knxnet", Fn: "HarnessC16TCP", Args: []int64{f, k0, 0, 1}, Note: "1-byte dribble"},
 					Inst{Pkg: "knxnet", Fn: "HarnessC16TCP", Args: []int64{f, k0, 0, 0}, Note: "fully coalesced"})
+				if f <= 2 {
+					out = append(out, Inst{Pkg: "knxnet", Fn: "HarnessC16TCP", Args: []int64{f, k0, 1, 0, 1}, Note: "the peer closes inside the last frame (every position, header or body)"})
+				}
 			}
 		}
 		out = append(out, Inst{Pkg: "knxnet", Fn: "HarnessC16TCPBad", Args: []int64{0, 1}}, Inst{Pkg: "knxnet", Fn: "HarnessC16TCPBad", Args: []int64{1, 1}},
@@ -985,8 +993,8 @@ func init() {
 		NoNative: true,
 		Quick:    func(l *loaded) []Inst { return hang(c16(false)) },
 		Thorough: func(l *loaded) []Inst { return hang(c16(true)) },
-		Covers:   []string{"C16.tcp.end", "C16.tcpbad.end", "C16.udp.end", "C16.hostinfo.nat", "C16.hostinfo.local", "C16.hostinfo.bb.nat", "C16.hostinfo.bb.local", "C16.dial.udp.end", "C16.dial.tcp.end", "C16.hostinfo.parse.ok", "C16.hostinfo.parse.rejected", "C16.hostinfo.parse.anyport", "C16.send.concurrent.end", "C16.close.end", "C16.origin.accepted", "C16.origin.dropped", "C16.tcpbig.end"},
-		Bounds:   "real serveTCPSocket (with the real bufio.Reader and io.ReadFull) on streams of 1..2 (thorough 3) concatenated frames of five kinds (tunnelling ack, connection-state response, disconnect request, tunnelling requests carrying L_Data and L_Busmon) with symbolic field values, one 4.2 KB bus-monitor frame (longer than bufio's buffer), the Read stub returning: every placement of up to 2 (3) cut points, 1-byte dribble, or everything at once, then EOF; a frame with arbitrary body followed by a good one; a header announcing total length 0..5 (symbolic); real serveUDPSocket on 1..2 (3) datagrams, optionally preceded by an arbitrary symbolic datagram of 1..12 bytes into the reused 1024-byte buffer; Tunnel.hostInfo through requestConn for UDP/TCP/other sockets with and without SendLocalAddress; 2 (thorough 3) goroutines sending different frames through one TunnelSocket whose Write is a scheduling point; the same receive/send/close clauses through the real constructors DialTunnelUDP / DialTunnelTCP running on stubbed net.Resolve*/Dial* (peer 192.0.2.1:3671): 1..2 datagrams preceded by nothing / an empty datagram / a datagram from a foreign sender (host and port symbolic) / 8 arbitrary bytes; TCP streams of 1..2 frames with cut points or dribble; one Send (exactly one write of Size bytes) and Close; the real HostInfoFromAddress on the text of a local endpoint: every port 0..65535 written with 1..5 symbolic decimal digits, both networks, IPv6 / malformed / unknown-network texts rejected (net.ParseIP evaluated by the host on the concrete address text)",
+		Covers:   []string{"C16.tcp.end", "C16.tcp.truncated", "C16.tcpbad.end", "C16.udp.end", "C16.hostinfo.nat", "C16.hostinfo.local", "C16.hostinfo.bb.nat", "C16.hostinfo.bb.local", "C16.dial.udp.end", "C16.dial.tcp.end", "C16.hostinfo.parse.ok", "C16.hostinfo.parse.rejected", "C16.hostinfo.parse.anyport", "C16.send.concurrent.end", "C16.close.end", "C16.origin.accepted", "C16.origin.dropped", "C16.tcpbig.end"},
+		Bounds:   "real serveTCPSocket (with the real bufio.Reader and io.ReadFull) on streams of 1..2 (thorough 3) concatenated frames of five kinds (tunnelling ack, connection-state response, disconnect request, tunnelling requests carrying L_Data and L_Busmon) with symbolic field values, one 4.2 KB bus-monitor frame (longer than bufio's buffer), the Read stub returning: every placement of up to 2 (3) cut points, 1-byte dribble, or everything at once, then EOF; the peer closing inside the last frame at every byte position (header or body); a frame with arbitrary body followed by a good one; a header announcing total length 0..5 (symbolic); real serveUDPSocket on 1..2 (3) datagrams, optionally preceded by an arbitrary symbolic datagram of 1..12 bytes into the reused 1024-byte buffer; Tunnel.hostInfo through requestConn for UDP/TCP/other sockets with and without SendLocalAddress; 2 (thorough 3) goroutines sending different frames through one TunnelSocket whose Write is a scheduling point; the same receive/send/close clauses through the real constructors DialTunnelUDP / DialTunnelTCP running on stubbed net.Resolve*/Dial* (peer 192.0.2.1:3671): 1..2 datagrams preceded by nothing / an empty datagram / a datagram from a foreign sender (host and port symbolic) / 8 arbitrary bytes; TCP streams of 1..2 frames with cut points or dribble; one Send (exactly one write of Size bytes) and Close; the real HostInfoFromAddress on the text of a local endpoint: every port 0..65535 written with 1..5 symbolic decimal digits, both networks, IPv6 / malformed / unknown-network texts rejected (net.ParseIP evaluated by the host on the concrete address text)",
 		Outside:  "50-frame streams (the receiver keeps no state between frames other than bufio's buffer); more than 3 cut points at once; more than 2 (thorough 3) concurrent senders; an application that never reads again after Close (a receiver blocked on an undelivered frame ends only when that frame is read; decided here: Close with 0..2 decoded frames pending and a reader that drains); kernel sockets, net.Dial*/Listen* themselves, host parts other than the concrete ones listed (HostInfoFromAddress is redirected to an environment function in the client harnesses and executed itself in HarnessC16HostInfoParse)",
 		Assume:   []string{"(*net.TCPConn).Read / (*net.UDPConn).ReadFromUDP are engine stubs obeying the io.Reader contract with nondeterministic segment sizes"},
 	})
